@@ -19,6 +19,12 @@ def set (m : PMap) (k : Key) (v : Value) : PMap := (k, v) :: m.filter (fun e => 
 /-- remove `k` and everything beneath it -/
 def removePrefix (m : PMap) (k : Key) : PMap := m.filter (fun e => !(k.isPrefixOf e.1))
 
+/-- remove everything strictly beneath `k` (the element `k` itself keeps its value) -/
+def removeBelow (m : PMap) (k : Key) : PMap := m.filter (fun e => !(k.isPrefixOf e.1 && e.1 != k))
+
+/-- drop the value stored at exactly `k` -/
+def unset (m : PMap) (k : Key) : PMap := m.filter (fun e => e.1 != k)
+
 /-- the non-empty prefixes of a path: the elements that exist once it has been assigned -/
 def prefixes (k : Key) : List Key := (List.range k.length).map fun i => k.take (i + 1)
 
